@@ -357,8 +357,11 @@ func binop(op token.Token, t types.Type, x, y value) value {
 	_, xs := x.(*sym)
 	_, ys := y.(*sym)
 	if xs || ys {
-		if op == token.SHL || op == token.SHR || op == token.QUO || op == token.REM {
-			panic(unsupported("symbolic " + op.String()))
+		switch op {
+		case token.SHL, token.SHR:
+			return symShift(op, x, y)
+		case token.QUO, token.REM:
+			return symDiv(op, t, x, y)
 		}
 		return symBinop(op, t, x, y)
 	}
@@ -1057,6 +1060,36 @@ func callBuiltin(caller *frame, callpos token.Pos, fn *ssa.Builtin, args []value
 
 	case "close": // close(chan T)
 		close(args[0].(chan value))
+		return nil
+
+	case "Sizeof", "Alignof": // unsafe.Sizeof / Alignof left in instantiated generic code
+		if sig, ok := fn.Type().(*types.Signature); ok && sig.Params().Len() == 1 {
+			if fn.Name() == "Sizeof" {
+				return uintptr(cur.sizes.Sizeof(sig.Params().At(0).Type()))
+			}
+			return uintptr(cur.sizes.Alignof(sig.Params().At(0).Type()))
+		}
+		panic(unsupported("unsafe." + fn.Name() + " of an unknown type"))
+
+	case "clear": // clear(map) / clear([]T)
+		switch x := args[0].(type) {
+		case *smap:
+			cur.recordAccess(args[0], true, caller, callpos)
+			if x != nil {
+				x.keys, x.vals, x.idx, x.symKeys = nil, nil, map[value]int{}, 0
+			}
+		case []value:
+			et := builtinElemType(fn)
+			if et == nil {
+				panic(unsupported("clear of a slice of unknown element type"))
+			}
+			for k := range x {
+				x[k] = zero(et)
+			}
+		case nil:
+		default:
+			panic(unsupported(fmt.Sprintf("clear of %T", x)))
+		}
 		return nil
 
 	case "delete": // delete(map[K]value, K)
